@@ -182,6 +182,9 @@ PENDING_REASON = "check under construction in this build stage (not yet register
 SCALE_NOTE = (" In addition spec/TraceScale.tla validates histories recorded at realistic scale (structures whose arrays / tables cross the 4 KiB, 8 KiB, 64 KiB, "
               "1024-bucket and 65536-slot marks, thousands of real text/bytes keys with the library's own hash functions, batched additions, reloads, unions, growth) "
               "against a sparse abstract state; oracle-free clauses (round trips, read-only batteries, table invariants, file well-formedness) are evaluated there by the harness.")
+REPOTESTS_NOTE = (" The repository's own 312 tests are also run once under a recording plugin (vlib/pytest_rec.py, in-memory wrappers, nothing in /repo is edited) and every "
+                  "structure they drive through the public single-key API is validated by TLC against TraceScale.tla, the clauses being evaluated after every call.")
+REPOTESTS_PROPS = {"C01", "C02", "C03", "C04", "C08", "C09", "C10", "C14"}
 SCALE_PROPS = {"C01", "C02", "C03", "C04", "C05", "C07", "C08", "C09", "C10", "C11", "C12", "C13", "C14", "C15", "C17", "C19", "C20"}
 
 
@@ -201,7 +204,7 @@ def build():
                 "replay_cmd_template": "./check replay {path}",
                 "engine": "tla-s2c",
                 "level_claimed": {"category": c["category"], "text": c["text"], "design_ref": c["design"]},
-                "level_note": c["note"] + (SCALE_NOTE if pid in SCALE_PROPS else ""),
+                "level_note": c["note"] + (SCALE_NOTE if pid in SCALE_PROPS else "") + (REPOTESTS_NOTE if pid in REPOTESTS_PROPS else ""),
                 "technique": c["technique"],
             }
         )
